@@ -11,6 +11,24 @@
 
 using namespace c03;
 
+// C03_PTRBITS = 48 / 32 (parts 6 / 7): the managers declare ptrUsefulBitCount; the build also defines
+// MOMO_MEM_MANAGER_PTR_USEFUL_BIT_COUNT (momo ignores the declaration today: observation O3, common/verif_ptrbits.h) and, for 32,
+// C03_ARENA32 (every block below 4 GB). BucketLimP4 then keeps pointer + state in 6 / 4 bytes and 6 / 8 metadata bytes.
+#ifdef C03_PTRBITS
+class LedgerMMB : public LedgerMM {
+public:
+	static const size_t ptrUsefulBitCount = C03_PTRBITS;
+	explicit LedgerMMB(unsigned cls_ = 1) noexcept : LedgerMM(cls_) {}
+	LedgerMMB(LedgerMMB&& o) noexcept : LedgerMM(o.cls) {}
+	LedgerMMB(const LedgerMMB& o) noexcept : LedgerMM(o.cls) {}
+	LedgerMMB& operator=(const LedgerMMB&) = delete;
+	bool IsEqual(const LedgerMMB& o) const noexcept { return classOf(this, &cls, "IsEqual") == classOf(&o, &o.cls, "IsEqual"); }
+};
+typedef LedgerMMB HMM;
+#else
+typedef LedgerMM HMM;
+#endif
+
 struct NoExtraS : public momo::HashSetSettings { static const momo::ExtraCheckMode extraCheckMode = momo::ExtraCheckMode::nothing; };
 struct NoExtraM : public momo::HashMapSettings { static const momo::ExtraCheckMode extraCheckMode = momo::ExtraCheckMode::nothing; };
 
@@ -132,13 +150,13 @@ int main(int argc, char** argv)
 # define C03_PART 0
 #endif
 	Rng rng(c.seed * 0x1000 + 0x03B + C03_PART);
-	static const char* suiteName[] = { "c03_hashset", "c03_hashmap", "c03_hashopen", "c03_hashold" };
+	static const char* suiteName[] = { "c03_hashset", "c03_hashmap", "c03_hashopen", "c03_hashold", "c03_hashcfg", "c03_hashpool1", "c03_hashp48", "c03_hashp32" };
 	Suite s(c, suiteName[C03_PART], "model ledger");
 	Rec& r = rec(); r.c = &c; r.s = &s; r.family = suiteName[C03_PART];
 	unsigned H = c.thorough ? 200 : 30, N = c.thorough ? 120 : 80;
 	using namespace momo;
-#define SET(E, B, stored) HashSet<E, LTraits<E, B, stored>, LedgerMM, HashSetItemTraits<E, LedgerMM>, NoExtraS>, LedgerMM, LTraits<E, B, stored>, false
-#define MAP(K, V, B, stored) HashMap<K, V, LTraits<K, B, stored>, LedgerMM, HashMapKeyValueTraits<K, V, LedgerMM>, NoExtraM>, LedgerMM, LTraits<K, B, stored>, true
+#define SET(E, B, stored) HashSet<E, LTraits<E, B, stored>, HMM, HashSetItemTraits<E, HMM>, NoExtraS>, HMM, LTraits<E, B, stored>, false
+#define MAP(K, V, B, stored) HashMap<K, V, LTraits<K, B, stored>, HMM, HashMapKeyValueTraits<K, V, HMM>, NoExtraM>, HMM, LTraits<K, B, stored>, true
 #if C03_PART == 0
 	hashHistories<SET(ElemL, HashBucketLimP4<>, true), true>(c, rng, "HashSet<LimP4, nothrow-move, stored hash>", H, N);
 	hashHistories<SET(ElemC, HashBucketLimP4<2>, true), true>(c, rng, "HashSet<LimP4<2>, copy-only, stored hash>", H, N);
@@ -152,6 +170,29 @@ int main(int argc, char** argv)
 	hashHistories<SET(ElemC, HashBucketOpen2N2<1>, false), true>(c, rng, "HashSet<Open2N2<1>, copy-only, recomputed hash>", H, N);
 	typedef HashBucketOpenN1<3, true> BOpenN1;
 	hashHistories<SET(ElemL, BOpenN1, true), true>(c, rng, "HashSet<OpenN1<3>, nothrow-move, stored hash>", H, N);
+#elif C03_PART == 4
+	// HashBucketLimP<5..15> with pointer state: items pointer, count and pool index share one word (decoded with divisors > 4)
+	typedef HashBucketLimP<7> BLimP7; typedef HashBucketLimP<15> BLimP15;
+	static_assert(internal::BucketLimP<internal::HashSetBucketItemTraits<HashSetItemTraits<ElemL, HMM>>, 7, MemPoolParams<>, true>::usePtrState, "");
+	hashHistories<SET(ElemL, BLimP7, true), true>(c, rng, "HashSet<LimP<7> ptr-state, nothrow-move 24 bytes, stored hash>", H, N);
+	hashHistories<SET(ElemC, BLimP7, false), true>(c, rng, "HashSet<LimP<7> ptr-state, copy-only 24 bytes, recomputed hash>", H, N);
+	hashHistories<MAP(ElemT, ElemT, BLimP15, false), true>(c, rng, "HashMap<LimP<15> ptr-state, triv-reloc -> triv-reloc (32-byte pairs), recomputed hash>", H, N);
+#elif C03_PART == 5
+	// memory pools with one block per buffer: CanDeallocateAll() is false, Clear / destruction give the bucket arrays back one by one
+	typedef MemPoolParams<1> Pool1;
+	typedef HashBucketLimP<3, Pool1> BLimP3x1; typedef HashBucketLimP<5, Pool1, false> BLimP5x1; typedef HashBucketLimP1<3, Pool1> BLimP1x1; typedef HashBucketLimP4<4, Pool1> BLimP4x1;
+	hashHistories<SET(ElemC, BLimP3x1, true), true>(c, rng, "HashSet<LimP<3, pool blockCount 1> ptr-state, copy-only, stored hash>", H, N);
+	hashHistories<SET(ElemL, BLimP5x1, true), true>(c, rng, "HashSet<LimP<5, pool blockCount 1> no ptr-state, nothrow-move, stored hash>", H, N);
+	hashHistories<SET(ElemL, BLimP1x1, true), true>(c, rng, "HashSet<LimP1<3, pool blockCount 1>, nothrow-move, stored hash>", H, N);
+	hashHistories<SET(ElemT, BLimP4x1, false), true>(c, rng, "HashSet<LimP4<4, pool blockCount 1>, triv-reloc, recomputed hash>", H, N);
+#elif C03_PART == 6 || C03_PART == 7
+# ifndef C03_PTRBITS
+#  error "parts 6 / 7 need -DC03_PTRBITS=48 / 32 and -DMOMO_MEM_MANAGER_PTR_USEFUL_BIT_COUNT"
+# endif
+	static_assert(internal::MemManagerProxy<HMM>::ptrUsefulBitCount == C03_PTRBITS, "pointer width of the build");
+	hashHistories<SET(ElemL, HashBucketLimP4<>, true), true>(c, rng, fmt("HashSet<LimP4, nothrow-move, stored hash, %d-bit pointers>", (int)C03_PTRBITS), H, N);
+	hashHistories<SET(ElemT, HashBucketLimP4<2>, false), true>(c, rng, fmt("HashSet<LimP4<2>, triv-reloc, recomputed hash, %d-bit pointers>", (int)C03_PTRBITS), H, N);
+	hashHistories<MAP(ElemC, ElemL, HashBucketLimP4<3>, true), true>(c, rng, fmt("HashMap<LimP4<3>, copy-only -> nothrow-move, stored hash, %d-bit pointers>", (int)C03_PTRBITS), H, N);
 #else
 	hashHistories<SET(ElemL, HashBucketOne<>, true), true>(c, rng, "HashSet<One, nothrow-move, stored hash>", H, N);
 	hashHistories<SET(ElemC, HashBucketLimP1<3>, true), true>(c, rng, "HashSet<LimP1<3>, copy-only, stored hash>", H, N);
